@@ -137,7 +137,11 @@ class DictMethod:
 
     def __call__(self, ctx, *a, **k):
         d = self.d
-        if any(isinstance(x, Sym) for x in a[:1]) and self.name in ('get', 'pop', 'setdefault'):
+        symbolic = any(isinstance(x, Sym) for x in a[:1]) or any(isinstance(k, Sym) for k in d)
+        if symbolic and self.name == 'get':
+            k = ops.dict_find(ctx, d, a[0])
+            return d[k] if k is not ops._MISSING else (a[1] if len(a) > 1 else None)
+        if symbolic and self.name in ('pop', 'setdefault'):
             raise Unsupported('dict.%s with symbolic key' % self.name)
         if self.name == 'get':
             return d.get(*a)
@@ -247,6 +251,18 @@ class Loop:
         self.havoc = havoc or {}
         self.label = label
         self.extra_modifies = tuple(extra_modifies)
+
+
+def _own_nodes(fn):
+    """AST nodes of a function body excluding nested function/lambda bodies."""
+    stack = list(fn.body)
+    while stack:
+        n = stack.pop()
+        yield n
+        for c in ast.iter_child_nodes(n):
+            if isinstance(c, (ast.FunctionDef, ast.AsyncFunctionDef, ast.Lambda, ast.ClassDef)):
+                continue
+            stack.append(c)
 
 
 def assigned_names(stmts):
@@ -406,6 +422,16 @@ class Interp:
         self.bind(node, env, args, kwargs or {})
         if isinstance(node, ast.Lambda):
             return self.expr(node.body, env)
+        if any(isinstance(n, (ast.Yield, ast.YieldFrom)) for n in _own_nodes(node)):
+            # generator function: evaluated eagerly into the list of yielded values (assumes the consumer
+            # exhausts it at once and does not interleave effects; a raise surfaces at the call)
+            self.ctx.dropped.add('generator evaluated eagerly: ' + node.name)
+            env.vars['__yields__'] = []
+            try:
+                self.block(node.body, env)
+            except _Return:
+                pass
+            return env.vars['__yields__']
         try:
             self.block(node.body, env)
         except _Return as r:
@@ -849,9 +875,7 @@ class Interp:
                 d.update(self.expr(v, env))
             else:
                 kk = self.expr(k, env)
-                if isinstance(kk, Sym):
-                    raise Unsupported('dict display with symbolic key')
-                d[kk] = self.expr(v, env)
+                ops.setitem(self.ctx, d, kk, self.expr(v, env))
         return d
 
     def ex_Attribute(self, n, env):
@@ -987,6 +1011,15 @@ class Interp:
             return self.expr(n.body, env)
         return self.expr(n.orelse, env)
 
+    def ex_Yield(self, n, env):
+        v = self.expr(n.value, env) if n.value is not None else None
+        env.lookup('__yields__').append(v)
+        return None
+
+    def ex_YieldFrom(self, n, env):
+        env.lookup('__yields__').extend(ops.iterate(self.ctx, self.expr(n.value, env)))
+        return None
+
     def ex_NamedExpr(self, n, env):
         v = self.expr(n.value, env)
         self.assign(n.target, v, env)
@@ -1069,9 +1102,7 @@ class Interp:
         d = {}
         for e in self.comp_envs(n.generators, env):
             k = self.expr(n.key, e)
-            if isinstance(k, Sym):
-                raise Unsupported('dict comprehension with symbolic key')
-            d[k] = self.expr(n.value, e)
+            ops.setitem(self.ctx, d, k, self.expr(n.value, e))
         return d
 
 
